@@ -77,12 +77,13 @@ class GridderFilter(Contract):
     frame_attrs = {"region_", "nfit_"}
 
     def configs(self, tier):
-        return [{"rank": 1, "ncomp": 1, "weights": False}, {"rank": 2, "ncomp": 1, "weights": True}, {"rank": 1, "ncomp": 2, "weights": True}, {"rank": 2, "ncomp": 3, "weights": False}, {"rank": 1, "ncomp": 1, "weights": False, "extra": 1}]
+        return [{"rank": 1, "ncomp": 1, "weights": False}, {"rank": 2, "ncomp": 1, "weights": True}, {"rank": 1, "ncomp": 2, "weights": True}, {"rank": 2, "ncomp": 3, "weights": False}, {"rank": 1, "ncomp": 1, "weights": False, "extra": 1}, {"rank": 1, "ncomp": 2, "weights": False, "int_data": True}]
 
     def setup(self, B, cfg):
         est = AbstractGridder("f", cfg["ncomp"])
         coords = _coords(B, cfg["rank"], cfg.get("extra", 0), minsize=0)
-        data = tuple(B.array("data%d" % k, coords[0].shape) for k in range(cfg["ncomp"]))
+        # integer-dtype data: the residual is still data minus the (real-valued) prediction
+        data = tuple(B.array("data%d" % k, coords[0].shape, kind="i" if cfg.get("int_data") else "f") for k in range(cfg["ncomp"]))
         w = tuple(B.array("w%d" % k, coords[0].shape) for k in range(cfg["ncomp"])) if cfg["weights"] else None
         if cfg["ncomp"] == 1:
             data, w = data[0], (w[0] if w else None)
@@ -95,6 +96,7 @@ class GridderFilter(Contract):
                 continue
             yield (verde.Trend(1), arrs[:2], arrs[2]), dict(weights=rng.choice([None, np.abs(arrs[3]) + 0.1]))
             yield (verde.Vector([verde.Trend(1), verde.Trend(0)]), arrs[:2], (arrs[2], arrs[3])), {}
+            yield (verde.Trend(1), arrs[:2], np.round(arrs[2] * 7).astype(rng.choice(["int64", "int32"]))), {}  # integer data
 
     tol = (1e-9, 1e-9)
 
